@@ -77,6 +77,8 @@ func wrapText(t string, w int, eol string) string {
 	return sb.String()
 }
 
+var knownLabel = map[string]string{}
+
 func genC05(tier string, r *rng) {
 	genPem(tier, r.fork()) // tie of the concrete pem.Decode model (Model/Pem.lean) to the library and to file.PEMFile
 	// the ASN.1 objects: DER fixtures, PEM fixtures' bodies, freshly generated certificates and keys
@@ -107,6 +109,15 @@ func genC05(tier string, r *rng) {
 	// small objects around the polyglot length (52 bytes total) and others: PKCS#1 public keys with tiny moduli
 	for _, bits := range []int{200, 328, 336, 344, 352, 360, 368, 376, 384, 392, 400, 512} {
 		ders = append(ders, mustMarshal(asn1struct.PKCS1PublicKey{N: oddOfBits(r, bits), E: 65537}))
+	}
+	// well-formed certificates that crypto/x509 refuses (subject keys on brainpoolP256r1 / secp256k1): the generator knows
+	// they are certificates
+	for _, curve := range [][]int{{1, 3, 36, 3, 3, 2, 8, 1, 1, 7}, {1, 3, 132, 0, 10}} {
+		spki := xSeq(xSeq(xOID(1, 2, 840, 10045, 2, 1), xOID(curve...)), xTLV(0x03, append([]byte{0, 4}, r.bytes(64)...)))
+		subj := xName([][]xATV{{{[]int{2, 5, 4, 3}, 12, "Odd Curve"}}})
+		c := xCert(subj, 23, "200101000000Z", 23, "300101000000Z", xSeq(xOID(1, 2, 840, 10045, 4, 3, 2)), spki)
+		knownLabel[string(c)] = "CERTIFICATE"
+		ders = append([][]byte{c}, ders...)
 	}
 	if tier != "thorough" && len(ders) > 60 {
 		// keep a deterministic subset in the quick tier
@@ -147,7 +158,11 @@ func genC05(tier string, r *rng) {
 				}
 			}
 		}
-		if label := pemLabelFor(ref.Description); label != "" {
+		label := pemLabelFor(ref.Description)
+		if l, ok := knownLabel[string(der)]; ok {
+			label = l // the generator knows what it built, whatever the implementation makes of it
+		}
+		if label != "" {
 			blk := pem.EncodeToMemory(&pem.Block{Type: label, Bytes: der})
 			for _, crlf := range []bool{false, true} {
 				b := blk
@@ -159,6 +174,10 @@ func genC05(tier string, r *rng) {
 				emitP("pem", names[oi%len(names)], append([]byte(pre), b...))
 				emitP("pem", "obj.pem", append(append([]byte{}, b...), post...))
 				emitP("pem", "x.bin", append(append([]byte(pre), b...), post...))
+				// text in front that itself mentions an END line: a file header, the tail of a block whose head was cut off
+				for _, pre2 := range []string{"-----END OF HEADER-----\n", "QUJDRA==\n-----END CERTIFICATE-----\n", "see -----END below\n"} {
+					emitP("pem", "obj.pem", append([]byte(pre2), b...))
+				}
 			}
 			lower := pem.EncodeToMemory(&pem.Block{Type: strings.ToLower(label), Bytes: der})
 			emitP("pem", "obj.pem", lower)
